@@ -27,6 +27,11 @@ where
             let src = self.inner.fill_buf()?;
 
             if src.is_empty() {
+                // The stream ended before the declared header length.
+                if self.inner.get_ref().limit() > 0 {
+                    return Err(io::Error::from(io::ErrorKind::UnexpectedEof));
+                }
+
                 return Ok(n);
             }
 
